@@ -726,6 +726,34 @@ func ruleC01d(c *Ctx) {
 		return out
 	}
 	mx, bx := collect(m, mTaint), collect(binder, bTaint)
+	// guards that hold at every positive answer of the matcher are implied by "the route matched" (the binder only
+	// runs for a matched route): they do not distinguish the segments the transformation is applied to
+	var implied map[string]bool
+	for _, r := range returnsOf(m) {
+		if len(r.Results) == 0 {
+			continue
+		}
+		if v, isC := constBool(r.Results[0]); isC && !v {
+			continue
+		}
+		g := templateGuards(p, m, r.Block(), mTaint)
+		if implied == nil {
+			implied = g
+			continue
+		}
+		for k := range implied {
+			if !g[k] {
+				delete(implied, k)
+			}
+		}
+	}
+	for name, x := range mx {
+		for k := range implied {
+			if _, own := bx[name]; own && !bx[name].guards[k] {
+				delete(x.guards, k)
+			}
+		}
+	}
 	for name, b := range bx {
 		mm, ok := mx[name]
 		if !ok {
